@@ -56,6 +56,58 @@ def exhaustive_family(n):
     return out
 
 
+def targeted_family():
+    """Grammars aimed at the clauses of the specification, each with the queries that tell the
+    clause apart: which item reads a word when several kinds of items are expected at one point
+    (literal first, catch-all last), under | and under ||; word-break stripping with the same
+    break character twice.  -> (pairs of kinds, others), lists of (statements, probes, forced queries)"""
+    out = []
+
+    def item(pr, k, n):
+        if k == 'lit':
+            return ('lit', ['ab', 'cq'][n], None)
+        if k == 'sub':
+            return ('sub', [('lit', ['a', 'c'][n], None), ('alt', [('lit', t, None) for t in (['b', 'c'], ['q', 'r'])[n]])])
+        if k == 'cmd':
+            return pr.new([['ab', 'cq'], ['ac', 'zz1']][n])
+        return ('nt', ['U', 'V'][n])
+    words = ['ab', 'ac', 'cq', 'cr', 'zz1', FOREIGN, 'a', 'c']
+    for k1 in ('lit', 'sub', 'cmd', 'any'):
+        for k2 in ('lit', 'sub', 'cmd', 'any'):
+            if k1 == 'any' and k2 == 'any':
+                continue
+            for op in ('alt', 'fb'):
+                pr = Probes()
+                e = ('seq', [(op, [('seq', [item(pr, k1, 0), ('lit', 'x', None)]), ('seq', [item(pr, k2, 1), ('lit', 'y', None)])]),
+                             ('lit', 'end', None)])
+                qs = [([w], '') for w in words] + [([], p) for p in ('', 'a', 'c', 'ab', 'cq')] + [(['ab', 'x'], ''), (['cq', 'y'], 'e')]
+                out.append(([('call', 'cmd', e)], pr, qs))
+    pairs, out = out, []
+
+    # || inside a word, and the two tiers
+    def lit(t):
+        return ('lit', t, None)
+    pr = Probes()
+    e = ('alt', [('sub', [lit('--k='), ('fb', [lit('x'), lit('y')])]),
+                 ('sub', [lit('p:'), ('fb', [lit('q1'), ('alt', [lit('w'), lit('zz')]), lit('y')])])])
+    out.append(([('call', 'cmd', e)], pr, [([], p) for p in ('--k=', '--k=x', '--k=y', 'p:', 'p:z', 'p:y', 'p:q')]))
+    pr = Probes()
+    e = ('seq', [('fb', [lit('add'), ('sub', [lit('--k='), ('fb', [lit('x'), lit('y')])]), pr.new(['P1', '--z'])]), lit('end')])
+    out.append(([('call', 'cmd', e)], pr, [([], p) for p in ('', 'a', '-', '--', '--k=', '--k=y', '--z', 'P')] + [(['--k=y'], '')]))
+    pr = Probes()
+    e = ('sub', [lit('v'), ('fb', [pr.new(['K1', 'K2']), lit('x')]), ('opt', ('sub', [lit(','), ('fb', [lit('m'), lit('n')])]))])
+    out.append(([('call', 'cmd', e)], pr, [([], p) for p in ('v', 'vK', 'vx', 'vK1', 'vK1,', 'vK1,n', 'vx,')] + [(['vK1,n'], '')]))
+    # word breaks: the same break character twice in the typed word
+    pr = Probes()
+    e = ('seq', [('sub', [('lit', 'a:', None), ('alt', [('lit', 'b', None), ('lit', 'c', None)]), ('lit', ':', None),
+                          ('alt', [('lit', 'd', None), ('lit', 'e', None)])]), ('lit', 'f', None)])
+    out.append(([('call', 'cmd', e)], pr, [([], p) for p in ('a:', 'a:b', 'a:b:', 'a:b:d', 'a:c:e')] + [(['a:b:d'], '')]))
+    pr = Probes()
+    e = ('alt', [('lit', 'x=y=z', None), ('lit', 'x=y=w', None), pr.new(['k=1=2', 'k=1:3'])])
+    out.append(([('call', 'cmd', e)], pr, [([], p) for p in ('x=', 'x=y', 'x=y=', 'k=1', 'k=1=', 'k=1:')]))
+    return pairs, out
+
+
 class RGen:
     """Random grammars biased to stay inside C01's domain: per-text descriptions are consistent,
     within-word literal sets are prefix-free, probe outputs come from alphabets disjoint from the
